@@ -125,10 +125,23 @@ LEVEL_TEXT = ("Theorems (Coq/MathComp, every shape and every entry, over an arbi
               "the loops, any number type. How the stream turns a double into digits is the standard library's and not modelled; the corner / bar "
               "items of the matrix printout are fixed by the model (compared on every run, S4 predicate printout-structure), the theorem "
               "states them only through [m_round]. "
-              "Not theorems: anything about rounding "
-              "errors of sums (S4 only, a-priori slack); the clauses for shapes with zero rows (outside the quantifier; the theorems that "
+              "No hidden state (coq/C04_Proofs_Cache.v): C04_session_observers_fresh - after any session every live object IS the fresh "
+              "object built from its current entries, so every observer answers on an object with a past what it answers on a fresh object of "
+              "equal value; on the implementation this is what the `observer-cache` sessions test (observer; mutator; observer on one live "
+              "object and on copies taken in between, touched through the const interface only, every mutator, Resize shrinking by 1, 2, 3.. "
+              "and growing, entries with exact zeros followed by non-zeros) - a cache inside the C++ objects is outside the model by construction. "
+              "Rounding (coq/C04_Proofs_Round.v; the SAME model terms instantiated at real numbers whose +, -, * are arbitrary functions "
+              "satisfying the standard model fl(x op y) = (x op y)(1+d), |d| <= u, 0 + y exact - Section hypotheses, not axioms; induction "
+              "over the length, every n and shape): C04_dot_rounding_bound (|fl(u.v) - sum u_i v_i| <= ((1+u)^n - 1) sum |u_i||v_i|), "
+              "C04_product_entry_rounding_bound (the same for entry (i,j) of Product / operator* and for the components of Matrix*Vector and "
+              "Vector*Matrix), C04_norm2_rounding_bound (the accumulator of squares of Matrix::Norm over rows*columns entries), "
+              "C04_sum_entry_rounding_bound (every entry of += / -= within u|a +- b|), C04_dot_exact_arithmetic (u = 0 gives the exact sum), "
+              "C04_rounding_hypotheses_satisfiable (exact arithmetic with u = 0; an arithmetic that really rounds with u = 1/4). The S4 "
+              "slack for sums of products (close_sum) is this very expression with u = 2^-53 plus an absolute term for underflowing products. "
+              "Not theorems: that IEEE double arithmetic satisfies the standard-model hypotheses (true without underflow / overflow; trusted), "
+              "rounding of the square root in Norm() and of Trace / cross products (S4 only, a-priori slack); the clauses for shapes with zero rows (outside the quantifier; the theorems that "
               "rebuild a result through Matrix(vector<vector<double>>) assume a row); Angle() and Spherical_Coordinates are not part of C04.")
-LEVEL_NOTE = ("Coq 8.16.1 + MathComp 1.15; theorems are axiom-free; hand-written model tied by differential correspondence (extraction with "
+LEVEL_NOTE = ("Coq 8.16.1 + MathComp 1.15; theorems are axiom-free except the rounding theorems (coq/C04_Proofs_Round.v), which are about Coq's axiomatic real numbers; hand-written model tied by differential correspondence (extraction with "
               "ExtrOcamlBasic only). Theorems are about exact arithmetic in a commutative ring / field (the exact values of the doubles); "
               "the laws proved from commutativity / unit laws alone hold for IEEE doubles as numbers (==) for finite entries. "
               "S4 'to rounding' clauses (products, dot, trace, norm, cross orthogonality) use the standard model with gradual underflow "
@@ -387,15 +400,23 @@ DEN_MIN = 2.0 ** -1074          # smallest positive double
 OVF = Fraction(DBL_MAX) * (1 - Fraction(1, 2 ** 40))
 
 
+def gamma(n):
+    """(1+u)^n - 1 with u = 2^-53, exactly (a Fraction): the relative forward error bound of an accumulation of n products that
+    the theorems C04_dot_rounding_bound / C04_product_entry_rounding_bound prove for every arithmetic satisfying the standard model"""
+    return (1 + Fraction(EPS)) ** n - 1
+
+
 def close_sum(got, terms):
-    """got vs the exact sum of the products a*b under the standard rounding model with gradual underflow
+    """got vs the exact sum of the n products a*b under the standard rounding model with gradual underflow
     (fl(x op y) = (x op y)(1+d) + e, |d| <= eps, |e| <= 2^-1075 for a product, 0 for a sum):
-    |got - exact| <= SLACK * sum|a*b| + (#terms) * 2^-1074.  The model says nothing when an intermediate can overflow
+    |got - exact| <= ((1+eps)^n - 1) * sum|a*b| + (#terms) * 2^-1074  - the expression of the theorems (coq/C04_Proofs_Round.v) plus
+    the absolute term for underflowing products, which their hypotheses exclude.  (A cross-product component a*b - c*d and a trace
+    are accumulations with n = 2 resp. n terms and fewer roundings.)  The model says nothing when an intermediate can overflow
     (sum|a*b| reaches DBL_MAX): then inf / nan are accepted as well."""
     if any(math.isinf(a) or math.isnan(a) or math.isinf(b) or math.isnan(b) for a, b in terms): return True
     ex = exact_sum(terms); sc = sum(abs(Fraction(a) * Fraction(b)) for a, b in terms)
     if math.isinf(got) or math.isnan(got): return sc >= OVF
-    return abs(Fraction(got) - ex) <= Fraction(SLACK) * sc + Fraction(DEN_MIN) * max(8, len(terms))
+    return abs(Fraction(got) - ex) <= gamma(len(terms)) * sc + Fraction(DEN_MIN) * max(8, len(terms))
 
 
 def close_norm(got, entries):
@@ -1148,6 +1169,81 @@ def underflow_request(rng):
     return f"{op} {mtab(S)}"
 
 
+def cache_cases(rng, big, add):
+    """observer; mutator; observer on ONE live object and on copies taken in between (state cached inside an object by a const
+    observer and invalidated incompletely by a mutator).  The sessions touch the objects through the const interface only between
+    the steps (v_norm / v_show / v_atc / v_dot / v_print, m_norm / trace / m_show / m_atc / ...: the harness prints through
+    const references; v_at / m_at, which go through the non-const operator[], are not used here).  Every mutator: Resize
+    shrinking by 1, 2, 3.. entries and growing, Assign, compound assignments, Normalize, element writes, scalings, transposition,
+    row / column deletion; entries with exact zeros (+0.0 / -0.0) followed by non-zeros, so that what a shrinking Resize cuts off
+    begins with a zero and goes on with a non-zero.  Every answer is judged against a fresh object of equal value (life_predicates)."""
+    kinds = ["int", "int", "dyadic", "mixed", "mixed", "wide"]
+    def nz(k):
+        x = entry(rng, k)
+        return x if x not in (0.0, None) and not math.isinf(x) and not math.isnan(x) else 3.0
+    def ze(k): return rng.choice([0.0, 0.0, -0.0]) if rng.random() < 0.45 else nz(k)
+    for _ in range(3000 if big else 170):
+        k = rng.choice(kinds); N = rng.randint(3, 8)
+        v = [nz(k)] + [ze(k) for _ in range(N - 1)]
+        d0 = None
+        if rng.random() < 0.6:                        # what a Resize to d0 cuts off: a zero first, a non-zero later
+            d0 = rng.randint(1, N - 2); v[d0] = rng.choice([0.0, -0.0]); v[rng.randint(d0 + 1, N - 1)] = nz(k)
+        w = [nz(k)] + [ze(k) for _ in range(rng.randint(1, 6))]
+        size = [N, len(w)]; steps = []
+        def obs(j, first=False):
+            f = "v_norm" if first or rng.random() < 0.5 else rng.choice(["v_normalized", "v_show", "v_dot", "v_print", "v_atc", "v_norm"])
+            if f == "v_dot": steps.append(f"o v_dot @{j} @{j}")
+            elif f == "v_atc": steps.append(f"o v_atc @{j} {rng.randrange(size[j])}")
+            else: steps.append(f"o {f} @{j}")
+        for rnd in range(rng.choice([1, 1, 2, 3])):
+            obs(0, True)
+            if rng.random() < 0.4: steps.append("v 1 af @0"); size[1] = size[0]; obs(1) if rng.random() < 0.5 else None
+            n = size[0]; r = rng.random()
+            if rnd == 0 and d0 is not None and r < 0.75: steps.append(f"v 0 rs {d0}"); size[0] = d0
+            elif r < 0.45:
+                d = max(1, n + rng.choice([-1, -2, -2, -3, -3, -4, -5, 1, 2, 3])); steps.append(f"v 0 rs {d}"); size[0] = d
+            elif r < 0.52: d = rng.randint(1, 8); steps.append(f"v 0 as {d} {hx(ze(k))}"); size[0] = d
+            elif r < 0.66: steps.append(f"v 0 {rng.choice(['pa', 'ma'])} {flist([ze(k) for _ in range(n)])}")
+            elif r < 0.72: steps.append("v 0 sa")
+            elif r < 0.80: steps.append("v 0 nz")
+            elif r < 0.90: steps.append(f"v 0 st {rng.randrange(n)} {hx(ze(k))}")
+            elif r < 0.95: steps.append(f"v 0 {rng.choice(['ms', 'sm', 'dv'])} {hx(nz('dyadic'))}")
+            else: steps.append("v 0 cp")
+            if rng.random() < 0.3: steps.append("v 1 af @0"); size[1] = size[0]
+            obs(0, True); obs(1, rng.random() < 0.7)
+            if rng.random() < 0.3: obs(0)
+        add(f"life 0 2 {flist(v)} {flist(w)} {len(steps)} " + " ".join(steps), "life", "observer-cache", "vector")
+    for _ in range(2000 if big else 110):
+        k = rng.choice(kinds); R, C = rng.randint(2, 6), rng.randint(2, 6)
+        A = [[ze(k) for _ in range(C)] for _ in range(R)]; A[0][0] = nz(k)
+        B = [[ze(k) for _ in range(rng.randint(1, 4))] for _ in range(1)]
+        shp = [[R, C], [1, len(B[0])]]; steps = []
+        def mobs(j):
+            r_, c_ = shp[j]
+            f = rng.choice(["m_norm", "m_norm", "trace", "trace", "m_show", "symmetric", "diagonal", "m_atc", "m_print", "transpose", "square"])
+            if f == "trace" and r_ != c_: f = "m_norm"
+            if f == "m_atc": steps.append(f"o m_atc @{j} {rng.randrange(r_)} {rng.randrange(c_)}")
+            else: steps.append(f"o {f} @{j}")
+        for rnd in range(rng.choice([1, 1, 2, 3])):
+            mobs(0); mobs(0)
+            if rng.random() < 0.4: steps.append("m 1 af @0"); shp[1] = list(shp[0])
+            r_, c_ = shp[0]; r = rng.random()
+            if r < 0.40:
+                nr = max(1, r_ + rng.choice([0, -1, -2, -3, 1, 2])); nc = max(1, c_ + rng.choice([0, -1, -2, -3, 1, 2]))
+                if rng.random() < 0.3: nr = nc = min(nr, nc)
+                steps.append(f"m 0 rs {nr} {nc}"); shp[0] = [nr, nc]
+            elif r < 0.47: nr, nc = rng.randint(1, 6), rng.randint(1, 6); steps.append(f"m 0 as {nr} {nc} {hx(ze(k))}"); shp[0] = [nr, nc]
+            elif r < 0.55 and r_ > 1: steps.append(f"m 0 dr {rng.randrange(r_)}"); shp[0] = [r_ - 1, c_]
+            elif r < 0.63 and c_ > 1: steps.append(f"m 0 dc {rng.randrange(c_)}"); shp[0] = [r_, c_ - 1]
+            elif r < 0.75: steps.append(f"m 0 st {rng.randrange(r_)} {rng.randrange(c_)} {hx(ze(k))}")
+            elif r < 0.85: steps.append(f"m 0 {rng.choice(['pa', 'ma'])} {mtab([[ze(k) for _ in range(c_)] for _ in range(r_)])}")
+            elif r < 0.89: steps.append("m 0 sa")
+            elif r < 0.94: steps.append("m 0 tr"); shp[0] = [c_, r_]
+            else: steps.append(f"m 0 {rng.choice(['ms', 'dv'])} {hx(nz('dyadic'))}")
+            mobs(0); mobs(0); mobs(1)
+        add(f"life 2 {mtab(A)} {mtab(B)} 0 {len(steps)} " + " ".join(steps), "life", "observer-cache", "matrix")
+
+
 def amb_cases(rng, big, add, pool):
     def calls():
         k = rng.choice([1, 1, 1, 2, 3]); return f"amb {k} " + " ".join(foreign(rng) for _ in range(k))
@@ -1544,6 +1640,7 @@ def generate(rng, tier):
         br = [rng.randint(1, 3) for _ in range(GR)]; bc = [rng.randint(1, 3) for _ in range(GC)]
         add(f"blockm {GR} " + " ".join(f"{GC} " + " ".join(mtab(whole_operand(rng, br[R], bc[C], rng.choice(BLOCK_KINDS))) for C in range(GC)) for R in range(GR)), "block", "valid", "block-magnitudes")
     life_cases(rng, big, add)
+    cache_cases(rng, big, add)
     made_cases(rng, big, add)
     amb_cases(rng, big, add, [c for c in cs if c is not None and len(c.line) < 1500])
     # ---- stream insertion (operator<<(ostream, Vector / Matrix), model coq/C04_Print.v): every shape up to L, random shapes up to 8,
